@@ -320,6 +320,56 @@ thread_local! {
     static CLOSE_BEHIND_END: std::cell::Cell<bool> = const { std::cell::Cell::new(false) };
 }
 
+thread_local! {
+    /// The transfer reaches the client in another (legal) packaging than the
+    /// server chose: the same records in the same order, cut into messages at
+    /// drawn points, the question only in the first message (RFC 5936
+    /// section 2.2.2 lets a server leave it out of the following ones).
+    static REPACK: std::cell::Cell<bool> = const { std::cell::Cell::new(false) };
+}
+
+/// Re-package the messages of a complete full transfer.
+fn repackage(frames: &[Vec<u8>]) -> Option<Vec<Vec<u8>>> {
+    use domain::base::ParsedName;
+    use domain::rdata::AllRecordData;
+    let first = Message::from_octets(frames.first()?.as_slice()).ok()?;
+    let question = first.first_question()?;
+    let mut recs = Vec::new();
+    let msgs: Vec<Message<&[u8]>> = frames.iter().filter_map(|f| Message::from_octets(f.as_slice()).ok()).collect();
+    for m in &msgs {
+        for r in m.answer().ok()? {
+            recs.push(r.ok()?.into_record::<AllRecordData<_, ParsedName<_>>>().ok()??);
+        }
+    }
+    let mut out = Vec::new();
+    let mut i = 0;
+    while i < recs.len() {
+        let mut mb = MessageBuilder::new_vec();
+        *mb.header_mut() = first.header();
+        let mut qb = mb.question();
+        if out.is_empty() {
+            qb.push(&question).ok()?;
+        }
+        let mut ab = qb.answer();
+        let left = recs.len() - i;
+        let k = match sim::draw("repack.cut", 5) {
+            0 => 1,
+            1 => 2,
+            2 => left.saturating_sub(1).max(1),
+            3 => left,
+            _ => 1 + sim::draw("repack.n", left.min(40) as u64) as usize,
+        };
+        let mut n = 0;
+        while n < k && i < recs.len() && ab.as_slice().len() < 60_000 {
+            ab.push(recs[i].clone()).ok()?;
+            i += 1;
+            n += 1;
+        }
+        out.push(ab.into_message().into_octets());
+    }
+    Some(out)
+}
+
 /// Is this the closing message of an AXFR (ends with the SOA; the opening
 /// message alone holds the SOA first)?
 fn ends_axfr(body: &[u8], frames_before: usize) -> bool {
@@ -337,6 +387,7 @@ fn ends_axfr(body: &[u8], frames_before: usize) -> bool {
 async fn pump(led: Led, mut rd: tokio::io::ReadHalf<SimStream>, mut wr: tokio::io::WriteHalf<SimStream>, ids: Rc<RefCell<BTreeMap<u16, String>>>, cut: Rc<RefCell<bool>>, to_client: bool, mode: Mode, conn: usize) {
     let mut held: Option<Vec<u8>> = None;
     let mut xfr_frames = 0usize;
+    let mut repack_buf: Vec<Vec<u8>> = Vec::new();
     loop {
         if *cut.borrow() {
             break;
@@ -367,6 +418,25 @@ async fn pump(led: Led, mut rd: tokio::io::ReadHalf<SimStream>, mut wr: tokio::i
             led.borrow_mut().tracks.entry(k.clone()).or_default().ids.push(id);
             k
         };
+        if to_client && key == "xfr" && REPACK.with(|c| c.get()) {
+            // Collect the whole transfer, then hand it on in a packaging of
+            // its own.
+            let done = ends_axfr(&body, xfr_frames) || dns::view(&body).is_none_or(|v| v.full_rcode != 0);
+            xfr_frames += 1;
+            repack_buf.push(body);
+            if done {
+                let frames = std::mem::take(&mut repack_buf);
+                let msgs = repackage(&frames).unwrap_or(frames);
+                sim::stat("probe.transfer_repackaged");
+                ev!("mb conn{} hands the transfer on in {} messages of {:?} octets", conn, msgs.len(), msgs.iter().map(|m| m.len()).collect::<Vec<_>>());
+                for m in msgs {
+                    if !write_frame(&mut wr, &m).await {
+                        return;
+                    }
+                }
+            }
+            continue;
+        }
         let fate = draw_fate(mode, true);
         ev!("mb conn{} {} {} id={} len={} fate={:?}", conn, if to_client { "response" } else { "request" }, key, id, body.len(), fate);
         let stripped = strip_tsig(&body).map(|x| x.0);
@@ -832,6 +902,7 @@ async fn run(prop: &'static str, _tier: Tier) {
     let abandon_after = if sim::chance("xfr.abandon_first", 1, 4) && !(compat_mode && ixfr) { 1 + sim::draw("xfr.abandon_after", 2) } else { 0 };
     let abandon_pause_ms = *sim::pick("xfr.abandon_pause_ms", &[0u64, 1, 20, 150]);
     CLOSE_BEHIND_END.with(|c| c.set(!ixfr && abandon_after == 0 && sim::chance("xfr.close_behind_end", 1, 4)));
+    REPACK.with(|c| c.set(!ixfr && !signed && abandon_after == 0 && mode == Mode::Quiet && !CLOSE_BEHIND_END.with(|c| c.get()) && sim::chance("xfr.repackaged", 2, 3)));
     let mut xst_cfg = stream::Config::new();
     xst_cfg.set_response_timeout(Duration::from_millis(2000));
     // A caller may be slow to collect the messages of a transfer (it applies
